@@ -80,7 +80,10 @@ func (d *Dir) Write(files map[string][]byte) error {
 	}
 	verifhook.Point("dir.write.step", 4)
 
-	if err := os.Symlink(newDir, d.target+".new"); err != nil {
+	// The link lives in the same directory as the version directory: link to
+	// its name, so that the target also resolves when Target is a relative
+	// path (a link to "base/<version>" placed in base/ would dangle).
+	if err := os.Symlink(filepath.Base(newDir), d.target+".new"); err != nil {
 		return err
 	}
 
